@@ -176,7 +176,9 @@ def run_main(argv, stdin=b"", files=None, tomlsup=True, workdir=None, cache_pars
         sys.argv, sys.stdin, sys.stdout, sys.stderr, bits.config.HAS_TOMLLIB = old
         shutil.rmtree(cdir, ignore_errors=True)
     res["levels"] = [h.level for h in handlers]
-    res["cfg"] = dict(vars(_State.cfg)) if _State.cfg is not None else None
+    # the effective options are read as ATTRIBUTES of the Config object (how the program itself reads them); where they are
+    # stored inside the object is the implementation's business
+    res["cfg"] = ({o: getattr(_State.cfg, o) for o in OPTIONS if hasattr(_State.cfg, o)} if _State.cfg is not None else None)
     res["rpc"] = _State.rpc_kwargs
     if res["ret"] is not None and not isinstance(res["ret"], str):
         res["ret"] = repr(res["ret"])
